@@ -278,3 +278,96 @@ Proof.
   induction post as [|e post IH]; intros s E H; cbn [fold_left] in H; [congruence|].
   eapply IH; [|exact H]. apply bad_sticky. exact E.
 Qed.
+
+(* ---- recovery: what is LOADED after a crash ------------------------------------------------------------- *)
+Lemma kill_dir_crash_dir old s tmp : crash_dir old s {| dcur := dcur (kill_dir old s); dtmp := tmp |}.
+Proof.
+  unfold crash_dir, kill_dir. cbn [dcur]. destruct (cur_new s) eqn:EC; [|left; reflexivity].
+  right. split; [reflexivity|]. exists (vol s). split; [reflexivity|].
+  destruct (bytes_eqb (vol s) (dur s)) eqn:E.
+  - left. apply beqb_eq. exact E.
+  - right. intros H. apply beqb_eq in H. congruence.
+Qed.
+
+(* for a protocol accepted by the decision procedure: at every crash point, under every pattern of failing
+   calls, whatever the temp name holds, a loader that reads only the committed file yields the state committed
+   before the save (the empty state when there was no offsets file yet) or the complete new one *)
+Theorem load_after_crash : forall p, protocol_safe p = true ->
+  forall (A : Type) (decode : bytes -> A) (empty : A) (old : option bytes) (new : bytes) (o : oracle),
+    Forall (fun s => forall d, crash_dir old s d ->
+                       load_dir decode empty d = load_old decode empty old \/ load_dir decode empty d = decode new)
+           (states new fs0 (run_proto new p o fs0)).
+Proof.
+  intros p HP A decode empty old new o. unfold protocol_safe in HP. apply andb_true_iff in HP. destruct HP as [HC _].
+  pose proof (acheck_sound new p o fs0 afs0 (R0 new) HC) as HNB.
+  pose proof (inv_states new (run_proto new p o fs0) fs0 (inv_fs0 new)) as HI.
+  rewrite Forall_forall in *. intros s Hs d Hd.
+  specialize (HNB s Hs). specialize (HI s Hs). unfold not_bad in HNB. unfold inv in HI.
+  unfold load_dir, load_old. destruct Hd as [Hd | [Hc [c [Hd Hcd]]]].
+  - left. rewrite Hd. reflexivity.
+  - right. rewrite Hd. destruct (HI HNB Hc) as [V D]. destruct Hcd as [Hcd|Hcd]; [congruence | exfalso; congruence].
+Qed.
+
+Lemma before_op_prefix op : forall l, exists post, l = before_op op l ++ post.
+Proof.
+  induction l as [|e l [post IH]]; [exists []; reflexivity|]. cbn [before_op].
+  destruct (fsop_eqb (eop e) op); [exists (e :: l); reflexivity|].
+  exists post. cbn [app]. rewrite <- IH. reflexivity.
+Qed.
+
+Lemma crash_evs_prefix p new cp :
+  exists post, run_proto new p (crash_oracle p new cp) fs0 = crash_evs p new cp ++ post.
+Proof.
+  destruct cp as [|cut| |]; unfold crash_evs; cbv zeta.
+  - eexists. reflexivity.
+  - eexists. symmetry. apply firstn_skipn.
+  - cbn [crash_oracle]. apply before_op_prefix.
+  - cbn [crash_oracle]. exists []. rewrite app_nil_r. reflexivity.
+Qed.
+
+Lemma crash_state_in_states p new cp :
+  In (crash_state p new cp) (states new fs0 (run_proto new p (crash_oracle p new cp) fs0)).
+Proof.
+  destruct (crash_evs_prefix p new cp) as [post E]. rewrite E. apply in_states_prefix.
+Qed.
+
+(* ... in particular at the crash points the harness realises on the real code, with anything under the temp name *)
+Theorem crash_point_recovery : forall p, protocol_safe p = true ->
+  forall (A : Type) (decode : bytes -> A) (empty : A) (old : option bytes) (new : bytes) (cp : crashpt) (tmp : option bytes),
+    let d := {| dcur := dcur (kill_dir old (crash_state p new cp)); dtmp := tmp |} in
+    load_dir decode empty d = load_old decode empty old \/ load_dir decode empty d = decode new.
+Proof.
+  intros p HP A decode empty old new cp tmp d.
+  pose proof (load_after_crash p HP A decode empty old new (crash_oracle p new cp)) as H.
+  rewrite Forall_forall in H. apply (H _ (crash_state_in_states p new cp)). apply kill_dir_crash_dir.
+Qed.
+
+(* a loader that falls back to the temp file when the offsets file is missing: the very first save is killed
+   after one byte of the two-byte snapshot reached the temp file; the restart loads that byte *)
+Lemma fallback_load_refuted :
+  protocol_safe tmp_sync_rename_protocol = true /\
+  exists (new : bytes) (cp : crashpt),
+    let d := kill_dir None (crash_state tmp_sync_rename_protocol new cp) in
+    load_dir_fallback (@Some bytes) None d <> load_old (@Some bytes) None None /\
+    load_dir_fallback (@Some bytes) None d <> Some new /\
+    load_dir (@Some bytes) None d = None.
+Proof.
+  split; [reflexivity|]. exists [1%N; 2%N], (CWrite 1). cbv zeta.
+  assert (E : kill_dir None (crash_state tmp_sync_rename_protocol [1%N; 2%N] (CWrite 1)) = {| dcur := None; dtmp := Some [1%N] |})
+    by (vm_compute; reflexivity).
+  rewrite E. cbn. repeat split; discriminate.
+Qed.
+
+Lemma load_old_id (old : option bytes) : load_old (@Some bytes) None old = old.
+Proof. destruct old; reflexivity. Qed.
+
+(* the raw loader (Offset.Load hands the file's bytes to the callback): the value IS the byte string *)
+Theorem load_after_crash_raw : forall p, protocol_safe p = true ->
+  forall (old : option bytes) (new : bytes) (o : oracle),
+    Forall (fun s => forall d, crash_dir old s d ->
+                       load_dir (@Some bytes) None d = old \/ load_dir (@Some bytes) None d = Some new)
+           (states new fs0 (run_proto new p o fs0)).
+Proof.
+  intros p HP old new o. pose proof (load_after_crash p HP (option bytes) (@Some bytes) None old new o) as H.
+  rewrite load_old_id in H. exact H.
+Qed.
